@@ -73,7 +73,7 @@ package fox
 //@   ensures untouched: old(panicking) != nil && (wWritten(ctxWriter(c, hCalls), hCalls) || connBroken(old(panicking))) ==> recCalls == old(recCalls) && wFinal == old(wFinal) && wBody == old(wBody)
 
 //@ -- the middleware closure: the handler runs exactly once, the deferred recovery is the only thing after it
-//@ func CustomRecoveryWithLogHandler$1$1 props C15 partial
+//@ func CustomRecoveryWithLogHandler$1$1 props C15
 //@   requires next != nil && slogger != nil && handle != nil && c != nil
 //@   modifies heap, hCalls, wFinal, wFirst, wInfo, wBody, wFlush, wHijack, hFn, hRoute, hTsr, hScope, hNParams, hReq, panicking, sbLen, recCalls, recArg, logN[slogger], logAt[slogger], logLvl[slogger], logMsg[slogger], logAttrs[slogger]
 //@   ensures once: hCalls == old(hCalls) + 1 && hFn == next
